@@ -39,6 +39,15 @@ def firstRefuter : Option String :=
   | some s => some ("effect-before-raise " ++ s.what)
   | none => (loopBody ++ post).find? (·.kind.canRaise) |>.map (fun s => "raise-after-effect " ++ s.what)
 
+def resultName : ResultKind → String
+  | .nothing => "nothing" | .single => "single" | .modular => "modular"
+def resultOf (s : String) : Option ResultKind :=
+  if s == "nothing" then some .nothing else if s == "single" then some .single else if s == "modular" then some .modular else none
+def decisionStr : Decision → String
+  | .proceeds => "proceeds"
+  | .refused m => "refused:" ++ encodeStr m.toList
+  | .unreviewed c => "unreviewed:" ++ encodeStr c.toList
+
 def handlers : List (String × Handler) := [
   ("write.run", fun
     | [out, mods, files, chdirSome?, seg, w, n] =>
@@ -59,7 +68,20 @@ def handlers : List (String × Handler) := [
     | [] => "ok raisesBeforeWrites=" ++ toString (raisesBeforeWrites pre loopBody post) ++
         " restoresSome=" ++ toString (restoresCwd chdirSome) ++ " restoresNone=" ++ toString (restoresCwd chdirNone) ++
         " writesOnlyInLoop=" ++ toString (writesOnlyInLoop pre loopBody post) ++
-        " refuter=" ++ (match firstRefuter with | some s => s.replace " " "_" | none => "none")
+        " refuter=" ++ (match firstRefuter with | some s => s.replace " " "_" | none => "none") ++
+        " tableMeetsContract=" ++ toString (tableMeetsContract refusals) ++
+        " contractRefuter=" ++ (match contractRefuter refusals with
+          | some (r, o) => resultName r ++ "/" ++ (if o.isNone then "stdout" else if o.hasSuffix then "suffix" else "nosuffix")
+          | none => "none")
+    | _ => "err args"),
+  ("write.refusal", fun
+    | [r, isNone, hasSuffix] =>
+      match strOf r, isNone.bool?, hasSuffix.bool? with
+      | some r, some n, some s =>
+        match resultOf r with
+        | some r => "ok contract=" ++ decisionStr (contractDecision r ⟨n, s⟩) ++ " table=" ++ decisionStr (tableDecision r ⟨n, s⟩ refusals)
+        | none => "err result kind"
+      | _, _, _ => "err args"
     | _ => "err args"),
   ("write.steps", fun
     | [seg] => match strOf seg with
